@@ -452,3 +452,58 @@ package packet
 //@   ensures !Sfail(st) && (k > 5 || L < 0) ==> err != nil                          [@value @reject]
 //@   ensures Sfail(st) ==> err != nil                                                [@errprop]
 //@   modifies *b, (*b)[0:cap(*b)], stream(r)                                         [@frame]
+
+// ---------------------------------------------------------------- framing (C07, C08, C09)
+//
+// Uncompressed frame:  leb(len(id)+len(data))  leb(id)  data
+
+//@ func (*Packet).packWithoutCompression(p; w) (err)
+//@   let wk = sink(w)
+//@   let l0 = old(Wlen(wk))
+//@   let il = leb32_len(uint32(p.ID))
+//@   let L = il + len(p.Data)
+//@   let hl = leb32_len(uint32(L))
+//@   requires len(p.Data) <= 2097152
+//@   ensures all(k, 0, l0, Wout(wk, k) == old(Wout(wk, k)))                         [@frame]
+//@   ensures err == nil ==> Wlen(wk) == l0 + hl + L                                  [@layout @count]
+//@   ensures err == nil ==> all(q, 0, 5, q < hl ==> Wout(wk, l0+q) == leb32_byte(uint32(L), q))          [@layout]
+//@   ensures err == nil ==> all(q, 0, 5, q < il ==> Wout(wk, l0+hl+q) == leb32_byte(uint32(p.ID), q))   [@layout]
+//@   ensures err == nil ==> all(j, 0, len(p.Data), Wout(wk, l0+hl+il+j) == p.Data[j])                    [@layout]
+//@   ensures Wfail(wk) ==> err != nil                                                [@errprop]
+//@   ensures !Wfail(wk) ==> err == nil                                               [@errprop]
+//@   modifies sink(w)                                                                [@frame]
+
+//@ func (*Packet).unpackWithoutCompression(p; r) (err)
+//@   let st = stream(r)
+//@   let p0 = old(Spos(st))
+//@   let k = leb32_run(Sinrow(st), p0)
+//@   let Len = int(int32(leb32_val(Sinrow(st), p0, k)))
+//@   let k2 = leb32_run(Sinrow(st), p0 + k)
+//@   let D = Len - k2
+//@   ensures err == nil ==> k <= 5 && k2 <= 5 && 0 <= D && D <= 2097152              [@value @reject]
+//@   ensures err == nil ==> uint32(p.ID) == leb32_val(Sinrow(st), p0 + k, k2) && len(p.Data) == D   [@value]
+//@   ensures err == nil ==> all(j, 0, D, p.Data[j] == Sin(st, p0 + k + k2 + j))     [@value @filled]
+//@   ensures err == nil ==> Spos(st) == p0 + k + Len                                 [@consume]
+//@   ensures !Sfail(st) && (k > 5 || k2 > 5 || D < 0 || D > 2097152) ==> err != nil [@reject]
+//@   ensures Sfail(st) ==> err != nil                                                [@errprop]
+//@   ensures !Sfail(st) && k <= 5 && k2 <= 5 && 0 <= D && D <= 2097152 ==> err == nil               [@errprop]
+//@   modifies p.ID, p.Data, p.Data[0:cap(p.Data)], stream(r)                         [@frame]
+
+// Compressed mode, receiving side: outer frame leb(PL) then PL bytes holding leb(DL) and either
+// the plain packet (DL == 0) or a zlib stream that inflates to id+payload of DL bytes.
+//@ func (*Packet).unpackWithCompression(p; r, threshold) (err)
+//@   let st = stream(r)
+//@   let p0 = old(Spos(st))
+//@   let k = leb32_run(Sinrow(st), p0)
+//@   let PL = int(int32(leb32_val(Sinrow(st), p0, k)))
+//@   let k2 = leb32_run(Sinrow(st), p0 + k)
+//@   let DL = int(int32(leb32_val(Sinrow(st), p0 + k, k2)))
+//@   let k3 = leb32_run(Sinrow(st), p0 + k + k2)
+//@   requires threshold >= 0
+//@   ensures err == nil ==> k <= 5 && PL >= 0 && Spos(st) == p0 + k + PL             [@consume]
+//@   ensures err == nil && DL == 0 ==> k2 <= 5 && k3 <= 5 && uint32(p.ID) == leb32_val(Sinrow(st), p0 + k + k2, k3) && len(p.Data) == PL - k2 - k3   [@value]
+//@   ensures err == nil && DL == 0 ==> all(j, 0, PL - k2 - k3, p.Data[j] == Sin(st, p0 + k + k2 + k3 + j))     [@value @filled]
+//@   ensures err == nil && DL != 0 ==> DL >= threshold && DL <= 2097152              [@reject]
+//@   ensures !Sfail(st) && k <= 5 && PL >= k2 && k2 <= 5 && DL != 0 && (DL < threshold || DL > 2097152) ==> err != nil   [@reject]
+//@   ensures Sfail(st) ==> err != nil                                                [@errprop]
+//@   modifies p.ID, p.Data, p.Data[0:cap(p.Data)], stream(r)                         [@frame]
